@@ -403,6 +403,71 @@ def c_redecl_unit(rng, size=None):
     return 'redecl', src, ''
 
 
+# ------------------------------------------------------------------------------------------------ exhaustive small histories
+def exhaustive_decl_modules(n):
+    """EVERY history  <0..2 exports/forwards> definition <0..2 exports/forwards>  (49 per kind of definition: function,
+    data, bss) -- the whole neighbourhood of add_item's case split, independent of any seed.
+    -> list of (ops, main function name), one module per kind"""
+    import itertools
+    runs = [list(t) for k in range(3) for t in itertools.product('XW', repeat=k)]
+    out = []
+    for kind in 'FDB':
+        x = '%s%s' % (n, kind.lower())
+        p1, p2 = 'p1_' + x, 'p2_' + x
+        ops = [('P', p1, 1), ('P', p2, 2), ('I', 'host_neg'), ('I', 'host_neg')]
+        names = []
+        for i, (pre, post) in enumerate(itertools.product(runs, runs)):
+            nm = 'e%s_%d' % (x, i)
+            names.append(nm)
+            ops += [(k, nm) for k in pre]
+            ops.append(('F', nm, p1, p2, []) if kind == 'F' else ('D', nm, [i, i + 1]) if kind == 'D' else ('B', nm, 8))
+            ops += [(k, nm) for k in post]
+        body = [('c' if kind == 'F' else 'd' if kind == 'D' else 'b', nm) for nm in names[::6]] + [('c', 'host_neg')]
+        ops += [('X', 'f' + x), ('F', 'f' + x, p1, p2, body), ('X', 'f' + x)]
+        out.append((ops, 'f' + x))
+    return out
+
+
+def exhaustive_c_redecl_unit():
+    """EVERY sequence of 1..3 file-scope declarations of an array out of  extern T a[]; / extern T a[K]; / T a[K]; /
+    T a[K] = {..}; / T a[] = {..};  that defines the object at most once and at least tentatively -- all orders of
+    incomplete and complete declarations around the definition; likewise for a scalar and a function"""
+    import itertools
+    L, calls, k = [], [], 0
+    forms = {'I': 'extern long %s[];', 'C': 'extern long %s[2];', 'T': 'long %s[2];', 'D': 'long %s[2] = {%d, 1};', 'E': 'long %s[] = {%d, 1};'}
+    for ln in (1, 2, 3):
+        for seq in itertools.product('ICTDE', repeat=ln):
+            if sum(c in 'DE' for c in seq) > 1 or not any(c in 'TDE' for c in seq):
+                continue
+            k += 1
+            a = 'xa@N@_%d' % k
+            for c in seq:
+                L.append(forms[c] % ((a, k % 50) if c in 'DE' else a))
+            calls.append('%s[0]' % a)
+    sforms = {'X': 'extern int %s;', 'T': 'int %s;', 'D': 'int %s = %d;'}
+    for ln in (1, 2, 3):
+        for seq in itertools.product('XTD', repeat=ln):
+            if sum(c == 'D' for c in seq) > 1 or not any(c in 'TD' for c in seq):
+                continue
+            k += 1
+            g = 'xg@N@_%d' % k
+            for c in seq:
+                L.append(sforms[c] % ((g, k % 50) if c == 'D' else g))
+            calls.append(g)
+    fforms = {'P': 'long %s (long);', 'O': 'long %s ();', 'X': 'extern long %s (long x);', 'D': 'long %s (long x) { return x + 1; }'}
+    for ln in (1, 2, 3):
+        for seq in itertools.product('POXD', repeat=ln):
+            if sum(c == 'D' for c in seq) != 1:
+                continue
+            k += 1
+            h = 'xh@N@_%d' % k
+            for c in seq:
+                L.append(fforms[c] % h)
+            calls.append('%s (n & 3)' % h)
+    body = ['long r = n;'] + ['r += %s;' % ' + '.join(calls[i:i + 8]) for i in range(0, len(calls), 8)]
+    return 'redecl-all', '\n'.join(L) + '\nlong f@N@ (long n) {\n  ' + '\n  '.join(body) + '\n  return r;\n}\n', ''
+
+
 if __name__ == '__main__':
     import random, sys
     rng = random.Random(int(sys.argv[2]) if len(sys.argv) > 2 else 1)
